@@ -7,6 +7,8 @@ import (
 	"golang.org/x/tools/go/ssa"
 )
 
+var extraDump func(c *Ctx, f *ssa.Function)
+
 // dumpFuncs prints the canonical shapes of the named functions (authoring aid
 // for specification tables; not used by any check).
 func dumpFuncs(rel string, names []string) {
@@ -32,8 +34,32 @@ func dumpFuncs(rel string, names []string) {
 				fmt.Println("SLICE ", abbr(exprStr(sl, shapeOpts)))
 			}
 		})
+		if extraDump != nil {
+			extraDump(c, f)
+		}
 		for _, cl := range f.AnonFuncs {
 			fmt.Println("  closure", cl.Name(), strings.Join(condShapes(cl), " ; "))
 		}
+	}
+}
+
+func init() {
+	extraDump = func(c *Ctx, f *ssa.Function) {
+		for _, suf := range []string{"StateWrapper", "LookupMetaMapkey", "StateKeyVal", "ServiceAccount"} {
+			ls := literalStores(f, suf)
+			if len(ls) > 0 {
+				fmt.Println("LITERAL", suf, ls)
+			}
+		}
+		n := 0
+		allInstrs(f, func(in ssa.Instruction) {
+			if st, ok := in.(*ssa.Store); ok && n < 40 {
+				s := exprStr(st.Addr, shapeOpts)
+				if strings.Contains(s, "State") {
+					n++
+					fmt.Println("STORE ", abbr(s))
+				}
+			}
+		})
 	}
 }
